@@ -24,6 +24,7 @@ PROFILE = Profile("wire_small", explicit_defaults=True, unknown_tags=True, any_f
 # ~8 calls per byte.  The bounds below carry 4x headroom over that worst case.
 CALLS_A, CALLS_B = 400, 32
 READS_A, READS_B = 16, 8
+MEM_A, MEM_B = 1 << 20, 1024  # bytes of peak traced allocation allowed: 1 MiB + 1 KiB per input byte
 
 ALLOWED = (K.SerialError, ValueError, OverflowError)
 
@@ -61,9 +62,27 @@ def _limit_memory() -> None:
         _limited = True
 
 
-def decode_guarded(cls, data: bytes):
+class MemoryBoundExceeded(Exception):
+    pass
+
+
+def decode_guarded(cls, data: bytes, measure_mem: bool = False):
     """-> (outcome, value_or_exc, calls, reads, consumed)"""
     _limit_memory()
+    if measure_mem:
+        import tracemalloc
+
+        tracemalloc.start()
+        try:
+            tracemalloc.reset_peak()
+            base = tracemalloc.get_traced_memory()[0]
+            res = decode_guarded(cls, data)
+            peak = tracemalloc.get_traced_memory()[1] - base
+        finally:
+            tracemalloc.stop()
+        if peak > MEM_A + MEM_B * len(data) and res[0] != "cost":
+            return ("mem", MemoryBoundExceeded(f"peak allocation {peak} bytes"),) + res[2:]
+        return res
     src = ReadOnlySource(data, max_reads=READS_A + READS_B * len(data), strict_sizes=False)
     reader = K.entity_reader(cls)
     prof = _Profiler(CALLS_A + CALLS_B * len(data))
@@ -82,10 +101,10 @@ def decode_guarded(cls, data: bytes):
 
 # --------------------------------------------------------------------------- input construction
 
-_HOSTILE_VARINTS = [b"\x00", b"\x01", b"\x02", b"\x7f", b"\x80\x01", b"\xff\xff\xff\xff\x07", b"\xff\xff\xff\xff\x0f",
+_HOSTILE_VARINTS = [b"\x00", b"\x01", b"\x02", b"\x7f", b"\x80\x01", b"\x81\x80\x80\x08", b"\x81\x80\x80\x80\x01", b"\xff\xff\xff\xff\x07", b"\xff\xff\xff\xff\x0f",
                     b"\xff\xff\xff\xff\x7f", b"\xff\xff\xff\xff\xff", b"\x80\x80\x80\x80\x00", b"\x80", b"\xff\x7f"]
 _HOSTILE_I16 = [be(-1, 2, True), be(-2, 2, True), be(32767, 2, True), be(-32768, 2, True), be(1, 2, True), be(0, 2, True)]
-_HOSTILE_I32 = [be(-1, 4, True), be(-2, 4, True), be(2**31 - 1, 4, True), be(-(2**31), 4, True), be(1, 4, True), be(2**24, 4, True)]
+_HOSTILE_I32 = [be(-1, 4, True), be(-2, 4, True), be(2**31 - 1, 4, True), be(-(2**31), 4, True), be(1, 4, True), be(2**24, 4, True), be(2**28, 4, True)]
 _BYTES = [0x00, 0x01, 0x7F, 0x80, 0xFF, 0xFE, 0x02]
 
 
@@ -161,8 +180,10 @@ def build_input(cd, tree, extra) -> tuple[bytes, bytes | None]:
     return apply_edits(valid, om, arg), valid
 
 
-def check_bytes(cd, data: bytes):
-    outcome, val, calls, reads, consumed = decode_guarded(cd.cls, data)
+def check_bytes(cd, data: bytes, measure_mem: bool = False):
+    outcome, val, calls, reads, consumed = decode_guarded(cd.cls, data, measure_mem)
+    if measure_mem:
+        note("memory_measured")
     note("decodes")
     note("calls_total", calls)
     note("bytes_total", len(data))
@@ -170,6 +191,10 @@ def check_bytes(cd, data: bytes):
     if outcome == "cost":
         out.append(("cost-bound:python-calls", f"{cd.path}: decoding {len(data)} bytes needed more than "
                     f"{CALLS_A}+{CALLS_B}*len Python calls; input {data.hex()[:400]}"))
+        return out, outcome, reads
+    if outcome == "mem":
+        out.append(("cost-bound:memory", f"{cd.path}: decoding {len(data)} bytes had a {val} (allowed {MEM_A}+{MEM_B}*len); "
+                    f"input {data.hex()[:400]}"))
         return out, outcome, reads
     if outcome == "raised":
         e = val
@@ -209,7 +234,8 @@ _state = {"reads": 0, "differs": False}
 
 def check(cd, tree, extra):
     data, valid = build_input(cd, tree, extra)
-    out, outcome, reads = check_bytes(cd, data)
+    measure = extra[0] == "mutate" and any(e[0] == "hostile_len" for e in extra[1])
+    out, outcome, reads = check_bytes(cd, data, measure)
     _state["reads"] = reads
     _state["differs"] = valid is None or data != valid
     note("mode:" + extra[0])
@@ -231,11 +257,11 @@ SPEC = TreeSpec(
     rule=(
         "one Hypothesis run per entity class; each case is either random bytes (0-64 random, boundary-byte strings, runs "
         "of one byte up to 256) or a structure-aware mutation of a reference encoding: 1-4 edits (overwrite, bit flip, "
-        "set/clear varint continuation bit, hostile length (-2, -1, 2^31-1, 2^35-1, overlong varint), insert, delete, "
+        "set/clear varint continuation bit, hostile length (-2, -1, 2^24, 2^28, 2^31-1, 2^35-1, overlong varint), insert, delete, "
         "truncate, duplicate) placed via the reference offset map on length prefixes, tag counts, tag numbers, tag sizes, "
         "nullable markers or values. Oracle: decode returns or raises SerialError/ValueError/OverflowError; Python calls "
         "(sys.setprofile) <= 400+32*len and read calls <= 16+8*len (counted, the profiler aborts the decode beyond the "
-        "bound); bytes consumed <= len; a returned entity must encode, and decode->encode of that must be idempotent. "
+        "bound); for cases with a hostile length, peak traced allocation (tracemalloc) <= 1 MiB + 1 KiB*len; bytes consumed <= len; a returned entity must encode, and decode->encode of that must be idempotent. "
         "Non-trivial = input differs from the valid encoding it was derived from (or is random) and the decoder got past "
         "the first read (>=2 reads); distinct by hash of (class, tree, edits)."
     ),
@@ -248,7 +274,7 @@ SPEC = TreeSpec(
     thorough_examples=400,
     tagged_boost=3,
     assumptions=(
-        "cost is measured in Python-level call events and stream read calls, not wall clock",
+        "cost is measured in Python-level call events, stream read calls and (for hostile-length cases) tracemalloc peak, not wall clock",
         "negative read sizes are served like io.BytesIO does (read to end)",
     ),
     floors={"nontrivial": 0.3},
@@ -274,7 +300,7 @@ def replay(case):
 
     if "input" in case:
         cd = D.describe(D.resolve(case["class"]))
-        return check_bytes(cd, bytes.fromhex(case["input"]))[0]
+        return check_bytes(cd, bytes.fromhex(case["input"]), measure_mem=True)[0]
     from ..treeprop import replay_tree_case
 
     return replay_tree_case(SPEC, case)
